@@ -108,6 +108,8 @@ def transact_lemma(kind):
         E.prove('transact:connects-before-it-writes', len(wire.events) >= 1 and wire.events[0] == 'connect')
         if out.ok:
             r = out.value
+            # the shape the call-site contract TransactCounted hands to execute: (bytes, None) or (nothing, the error)
+            E.prove('transact:result-is-(bytes,None)-or-(nothing,error)', L.Or(r[1] is None, L.length(r[0]) == 0))
             if fault[0] is None and not full and len(wire.reads) >= 1:
                 # silence (the read timed out with nothing) ends the attempt like a transport error: connection closed, so that the reply,
                 # should it still come, cannot be read by a later attempt or transaction
